@@ -738,6 +738,10 @@ package parser
 //@     invariant [C13,C20:dup-case-inv2] forall a int, b int :: {statement.Cases[a], statement.Cases[b]} (0 <= a && a < b && b < len(statement.Cases) && !statement.Cases[a].IsDefault && !statement.Cases[b].IsDefault) ==> statement.Cases[a].Value.Literal != statement.Cases[b].Value.Literal
 //@     invariant [C20:one-default-inv] (statement.DefaultCase == nil ==> (forall a int :: {statement.Cases[a]} (0 <= a && a < len(statement.Cases)) ==> !statement.Cases[a].IsDefault))
 //@       && (forall a int, b int :: {statement.Cases[a], statement.Cases[b]} (0 <= a && a < b && b < len(statement.Cases)) ==> !(statement.Cases[a].IsDefault && statement.Cases[b].IsDefault))
+//@   loop 1
+//@     transition [C13:subst-operand] parts == snoc(prev(parts), (indom(p.constants, prev(p.curToken.Literal)) ? p.constants[prev(p.curToken.Literal)] : prev(p.curToken.Literal)))
+//@   loop 3
+//@     transition [C13:subst-case] parts == snoc(prev(parts), (indom(p.constants, prev(p.curToken.Literal)) ? p.constants[prev(p.curToken.Literal)] : prev(p.curToken.Literal)))
 //@ end
 
 //@ func (p *Parser) parseConditionExpression
@@ -785,6 +789,8 @@ package parser
 //@   ensures [C20:stack-balanced] result2 == nil ==> (SameStack(p.breakStack, old(p.breakStack)) && SameStack(p.continueStack, old(p.continueStack)))
 //@   ensures [C18:located] result2 != nil ==> ErrLoc(result2)
 //@   loopinv [C20:stack-balanced-inv] SameStack(p.breakStack, old(p.breakStack)) && SameStack(p.continueStack, old(p.continueStack))
+//@   loop 1
+//@     transition [C13:subst-operand] parts == snoc(prev(parts), (indom(p.constants, prev(p.curToken.Literal)) ? p.constants[prev(p.curToken.Literal)] : prev(p.curToken.Literal)))
 //@ end
 
 //@ func (p *Parser) parseConditionVarOperator
@@ -794,6 +800,8 @@ package parser
 //@   ensures [C20:stack-balanced] result0 == nil ==> (SameStack(p.breakStack, old(p.breakStack)) && SameStack(p.continueStack, old(p.continueStack)))
 //@   ensures [C18:located] result0 != nil ==> ErrLoc(result0)
 //@   loopinv [C20:stack-balanced-inv] SameStack(p.breakStack, old(p.breakStack)) && SameStack(p.continueStack, old(p.continueStack))
+//@   loop 2
+//@     transition [C13:subst-value] parts == snoc(prev(parts), (indom(p.constants, prev(p.curToken.Literal)) ? p.constants[prev(p.curToken.Literal)] : prev(p.curToken.Literal)))
 //@ end
 
 //@ func (p *Parser) parseConditionFlagLikeOperator
